@@ -2,7 +2,7 @@
 
 import ast
 
-from ..core.absint import Interp, alternatives, pretty
+from ..core.absint import Interp, alternatives, result_alternatives, pretty
 from ..core.analysis import Analysis, facts
 from ..core.cfg import decompose_guard
 from ..core.forms import (NotPolynomial, Poly, Rat, canon, expand, srcinfo, to_rat)
